@@ -1,5 +1,6 @@
 import Mkts.Model.Bytes
 import Mkts.Extracted.Facts
+import Mkts.Extracted.Skeletons
 /-!
 # Row serialization model (C29; column-series part shared with C27)
 
@@ -22,6 +23,39 @@ open Mkts.Bytes
 abbrev Res := Except String
 
 deriving instance DecidableEq for Except
+
+/-! ## which variant of the code the CURRENT source implements
+
+Read off the skeletons that factgen regenerates from the Go source on every run, so that the
+model follows the code: if one of the statements below is changed back, the model describes
+the old behaviour again, the pinning theorems of `Props/C29.lean` fail and the spec line of the
+driver exposes the difference on a concrete input. -/
+
+/-- contiguous sub-list test -/
+def hasSub : List String → List String → Bool
+  | [], pat => pat.isEmpty
+  | a :: l, pat => pat.isPrefixOf (a :: l) || hasSub l pat
+
+/-- `SerializeColumnsToRows` compares column names with "Epoch" exactly (both the
+`shapesContainsEpoch` test and the skip in the record loop); before the repair of C29-F3 both
+used `strings.EqualFold` -/
+def epochExact : Bool :=
+  hasSub Mkts.Extracted.Skel.utils_io_SerializeColumnsToRows ["if:colName == \"Epoch\"{", "}", "call:SwapSliceData"] &&
+  hasSub Mkts.Extracted.Skel.utils_io_SerializeColumnsToRows
+    ["if:shape.Name == \"Epoch\"{", "continue", "}", "call:shape.Type.SliceInBytesAt"]
+
+/-- `Rows.GetColumn` reads BYTE shapes with `getInt8Column` (`[]int8`); before the repair of
+C29-F2 BYTE shared the `getByteColumn` case (`[]byte`) with BOOL -/
+def byteTyped : Bool :=
+  hasSub Mkts.Extracted.Skel.utils_io_Rows_GetColumn
+    ["case:BYTE{", "call:rows.GetRowLen", "call:rows.GetNumRows", "call:rows.GetData", "call:getInt8Column", "return", "}"]
+
+/-- `ColumnSeries.ToRowSeries` moves the Epoch shape to the front of the shapes it hands on
+(repair of C29-F1) -/
+def toRowSeriesReorders : Bool :=
+  hasSub Mkts.Extracted.Skel.utils_io_ColumnSeries_ToRowSeries
+    ["call:cs.GetDataShapes", "range:dsv{", "if:shape.Name == \"Epoch\" && i != 0{", "break", "}", "}",
+     "call:SerializeColumnsToRows"]
 
 /-! ## element types (`datatypes.go`) -/
 
@@ -136,6 +170,9 @@ def getMissingAndTypeCoercionColumns (required available : List DataShape) :
 one of the letters e, p, o, c, h. -/
 def equalFoldEpoch (name : String) : Bool := name.toList.map Char.toLower == "epoch".toList
 
+/-- the test `SerializeColumnsToRows` applies to a shape name to recognise the epoch column -/
+def isEpochName (name : String) : Bool := if epochExact then name == "Epoch" else equalFoldEpoch name
+
 /-- `AlignedSize` (machine word = 8) -/
 def alignedSize (n : Nat) : Nat := if n % 8 == 0 then n else n + 8 - n % 8
 
@@ -186,7 +223,7 @@ def epochColumn (cs : ColumnSeries) : Res (List Bytes) :=
 
 /-- (element size, column bytes) of every shape that the record loop does not skip -/
 def wordList (dataShapes : List DataShape) (colInBytes : List Bytes) : List (Nat × Bytes) :=
-  ((dataShapes.zip colInBytes).filter (fun p => !equalFoldEpoch p.1.name)).map
+  ((dataShapes.zip colInBytes).filter (fun p => !isEpochName p.1.name)).map
     (fun p => (typeSize p.1.typ, p.2))
 
 def recordLenOf (dataShapes : List DataShape) (align64 : Bool) : Nat :=
@@ -201,7 +238,7 @@ def serializeColumnsToRows (cs : ColumnSeries) (dataShapes : List DataShape) (al
   if !mc.2.isEmpty then throw "skip:coercion"
   let cs ← mc.1.foldlM addNullColumn cs
   let colInBytes ← colInBytesList cs dataShapes
-  if !dataShapes.any (fun s => equalFoldEpoch s.name) then throw "err:noepoch"
+  if !dataShapes.any (fun s => isEpochName s.name) then throw "err:noepoch"
   let recordLen := recordLenOf dataShapes align64
   let epochCol ← epochColumn cs
   let rows ← serializeLoop (wordList dataShapes colInBytes) (recordLen - shapesLen dataShapes) epochCol 0
@@ -235,11 +272,12 @@ def getColumnLoop (data : Bytes) (sz reclen : Nat) : Nat → Nat → Res (List B
     pure (w :: rest)
 
 /-- the `switch ds.Type` of `Rows.GetColumn`: (shape type, Go element type of the returned slice,
-bytes read per record).  BOOL and BYTE come back as `[]byte` (= UINT8). -/
+bytes read per record).  BOOL comes back as `[]byte` (= UINT8); BYTE as `[]int8` since the
+repair of C29-F2 (`byteTyped`), as `[]byte` before. -/
 def getterTable : List (Nat × Nat × Nat) := [
   (FLOAT32, FLOAT32, 4), (FLOAT64, FLOAT64, 8), (INT16, INT16, 2), (INT32, INT32, 4), (INT64, INT64, 8),
   (UINT8, UINT8, 1), (UINT16, UINT16, 2), (UINT32, UINT32, 4), (UINT64, UINT64, 8), (STRING16, STRING16, 64),
-  (BOOL, UINT8, 1), (BYTE, UINT8, 1)]
+  (BOOL, UINT8, 1), (BYTE, if byteTyped then BYTE else UINT8, 1)]
 
 /-- `Rows.GetColumn(colname)` = (element type, elements); `none` = nil interface.  A matching shape
 of a type outside the switch logs an error and the walk continues *without* advancing the offset. -/
@@ -284,15 +322,33 @@ def Rows.toColumnSeries (r : Rows) : Res ColumnSeries := do
     else throw "err:epochcast"
   | none => throw "err:epochcast"
 
+/-- first shape named "Epoch": (shapes before it, the shape, shapes after it) -/
+def splitEpoch : List DataShape → Option (List DataShape × DataShape × List DataShape)
+  | [] => none
+  | s :: r => if s.name == "Epoch" then some ([], s, r)
+    else (splitEpoch r).map (fun x => (s :: x.1, x.2.1, x.2.2))
+
+/-- the loop of `ToRowSeries`: the first shape named "Epoch" at an index other than 0 is moved
+to the front -/
+def epochShapeFirst : List DataShape → List DataShape
+  | [] => []
+  | s :: r => match splitEpoch r with
+    | some (p, e, q) => e :: s :: (p ++ q)
+    | none => s :: r
+
+/-- the shapes `ToRowSeries` passes to `SerializeColumnsToRows` and `NewRowSeries` -/
+def toRowSeriesShapes (cs : ColumnSeries) : List DataShape :=
+  if toRowSeriesReorders then epochShapeFirst cs.getDataShapes else cs.getDataShapes
+
 /-- `cs.ToRowSeries(key, align)` then `RowSeries.ToColumnSeries()` — the round trip of C29 -/
 def roundTrip (cs : ColumnSeries) (align : Bool) : Res ColumnSeries := do
-  let dsv := cs.getDataShapes
+  let dsv := toRowSeriesShapes cs
   let (data, recordLen) ← serializeColumnsToRows cs dsv align
   (newRowSeries data dsv recordLen Mkts.Extracted.utils_io_NOTYPE.toNat).rowSeriesToColumnSeries
 
 /-- same through `Rows.ToColumnSeries` -/
 def roundTripRows (cs : ColumnSeries) (align : Bool) : Res ColumnSeries := do
-  let dsv := cs.getDataShapes
+  let dsv := toRowSeriesShapes cs
   let (data, recordLen) ← serializeColumnsToRows cs dsv align
   (newRows dsv data recordLen).toColumnSeries
 
